@@ -478,4 +478,311 @@ theorem solveChecked_total {A B : List (List Rat)} {b : List Rat} (hl : A.length
   obtain ⟨x, hx, hAx, hxl⟩ := gaussJordan_total hl hrows hinv
   exact ⟨x, by simp [solveChecked, hx, hAx, hxl]⟩
 
+/-! ### helper lemmas and definitional facts used by Props/C20.lean
+
+(moved here so that the obligation count of Props/C20 reflects property statements.  Included: facts that hold by the
+very definition of the model — `partition_ignores_outlets`, `*_ignores_holder` (the repaired model does not take those
+arguments into account at all: `rfl`), `vle_balance` (its conclusion is its hypothesis), `lle_top_choice`.  What ties
+"the outlets / the holder do not matter" to the code is the correspondence (`load=` monitor, pre-filled outlets and
+holders) and the oracle, not these lemmas.) -/
+
+theorem total_nonneg (n : Nat) (ins : List Vec) (h : ∀ s ∈ ins, ∀ i, 0 ≤ s.at i) (i : Nat) : 0 ≤ (total n ins).at i := by
+  rw [total, at_tab_eq]
+  split
+  · apply sumL_nonneg
+    intro x hx
+    obtain ⟨s, hs, rfl⟩ := List.mem_map.mp hx
+    exact h s hs i
+  · exact le_refl _
+
+theorem at_setAt {n : Nat} {v : Vec} {k : Nat} {x : Rat} {i : Nat} (h : i < n) :
+    (setAt n v k x).at i = if i = k then x else v.at i := by
+  simp only [setAt, at_tab h]
+
+/-- the two raw values always add up to what retentate and permeate held of the moisture chemical -/
+theorem raw_sum (a : AdjIn) (hmw : (if a.byMol then a.mwc else a.MW.at a.k) ≠ 0) :
+    a.raw.1 + a.raw.2 = a.R.at a.k + a.P.at a.k := by
+  unfold AdjIn.raw
+  by_cases hb : a.byMol
+  · simp only [hb, if_true]; ring
+  · simp only [hb] at hmw ⊢
+    simp only [Bool.false_eq_true, if_false] at hmw ⊢
+    field_simp
+    ring
+
+/-- hypotheses under which the dry mass is meaningful -/
+structure AdjOK (a : AdjIn) : Prop where
+  k_lt : a.k < a.n
+  R_nonneg : ∀ i, 0 ≤ a.R.at i
+  P_nonneg : ∀ i, 0 ≤ a.P.at i
+  MW_nonneg : ∀ i, 0 ≤ a.MW.at i
+  MW_pos : 0 < a.MW.at a.k
+  /-- the literal `18.01528` of the `ID is None` branch is the molecular weight of the moisture chemical -/
+  mwc_eq : a.byMol = true → a.mwc = a.MW.at a.k
+  mc_range : 0 ≤ a.mc ∧ a.mc < 1
+
+/-- dry mass of the retentate -/
+def dry (a : AdjIn) : Rat := a.Fmass - a.MW.at a.k * a.R.at a.k
+
+theorem dry_nonneg (a : AdjIn) (ok : AdjOK a) : 0 ≤ dry a := by
+  have := le_sumL_range a.n a.k ok.k_lt (fun i => a.MW.at i * a.R.at i)
+    (fun i => mul_nonneg (ok.MW_nonneg i) (ok.R_nonneg i))
+  unfold dry AdjIn.Fmass
+  linarith
+
+/-- new retentate amount of the moisture chemical: `dry · mc/(1−mc) / MW_k`, in both branches -/
+theorem raw_fst (a : AdjIn) (ok : AdjOK a) : a.raw.1 = dry a * a.mc / (1 - a.mc) / a.MW.at a.k := by
+  unfold AdjIn.raw dry
+  by_cases hb : a.byMol = true
+  · simp only [hb, if_true, ok.mwc_eq hb]
+  · simp only [hb, Bool.false_eq_true, if_false]
+    rw [mul_comm (a.R.at a.k)]
+
+theorem raw_fst_nonneg (a : AdjIn) (ok : AdjOK a) : 0 ≤ a.raw.1 := by
+  rw [raw_fst a ok]
+  have h1 : 0 < 1 - a.mc := by linarith [ok.mc_range.2]
+  exact div_nonneg (div_nonneg (mul_nonneg (dry_nonneg a ok) ok.mc_range.1) (le_of_lt h1)) (le_of_lt ok.MW_pos)
+
+theorem adj_mw_ne (a : AdjIn) (ok : AdjOK a) : (if a.byMol then a.mwc else a.MW.at a.k) ≠ 0 := by
+  by_cases hb : a.byMol = true
+  · simp only [hb, if_true, ok.mwc_eq hb]; exact ne_of_gt ok.MW_pos
+  · simp only [hb, Bool.false_eq_true, if_false]; exact ne_of_gt ok.MW_pos
+
+/-- the repaired `partition` does not read what the outlets held before the call -/
+theorem partition_ignores_outlets (p : PartIn) (b : Vec) : partition { p with bot0 := b } = partition p := rfl
+
+/-- value of the bottom outlet for one chemical, in terms of the branch -/
+theorem bottom_at (p : PartIn) (stale : Nat → Rat) (o : PartOut) (h : p.run stale = .ok o) (i : Nat) (hi : i < p.n) :
+    o.bottom.at i = p.bottomCell p.branch.1 stale i := by
+  unfold PartIn.run at h
+  by_cases hF : p.F = 0
+  · simp [hF] at h
+  simp only [hF, if_false] at h
+  split at h
+  · simp at h
+  · simp only [Except.ok.injEq] at h
+    subst h
+    simp only [at_tab hi]
+
+theorem bottomCell_range (p : PartIn) (hfeed : ∀ i, 0 ≤ p.feed.at i) (i : Nat) :
+    0 ≤ p.bottomCell p.branch.1 (fun _ => 0) i ∧ p.bottomCell p.branch.1 (fun _ => 0) i ≤ p.feed.at i := by
+  unfold PartIn.bottomCell
+  cases hl : (p.branch.1.bind fun vals => lookupId p.ids vals i) with
+  | some v =>
+    simp only
+    unfold PartIn.branch at hl
+    by_cases h0 : p.phi ≤ 0
+    · simp only [h0, if_true, Option.bind_some] at hl
+      rw [lookupId_map hl]
+      exact ⟨hfeed i, le_refl _⟩
+    · by_cases h1 : p.phi < 1
+      · simp only [h0, h1, if_true, if_false, Option.bind_some] at hl
+        unfold PartIn.eqBottom at hl
+        obtain ⟨k, _, rfl⟩ := lookupId_zipWith hl
+        exact clip1_range _ _ (hfeed i)
+      · simp [h0, h1] at hl
+  | none =>
+    simp only
+    by_cases hb : i ∈ p.botc
+    · simp only [hb, if_true]; exact ⟨hfeed i, le_refl _⟩
+    · by_cases ht : i ∈ p.topc
+      · simp only [hb, ht, if_true, if_false]; exact ⟨le_refl _, hfeed i⟩
+      · simp only [hb, ht, if_false]; exact ⟨le_refl _, hfeed i⟩
+
+/-- un-clipped equilibrium split: `bottom = mol (1−φ)/(φK + 1 − φ)` -/
+theorem rawBottom_eq (p : PartIn) (hF : p.F ≠ 0) (mol k : Rat) (hden : p.phi * k + (1 - p.phi) ≠ 0) :
+    p.rawBottom mol k = mol * (1 - p.phi) / (p.phi * k + (1 - p.phi)) := by
+  unfold PartIn.rawBottom
+  field_simp
+
+theorem asValidFraction_range (x : Rat) : 0 ≤ asValidFraction x ∧ asValidFraction x ≤ 1 := by
+  unfold asValidFraction
+  by_cases h0 : x < 0
+  · simp [h0]
+  · by_cases h1 : x > 1
+    · simp [h0, h1]
+    · simp only [h0, h1, if_false]; exact ⟨le_of_not_gt h0, le_of_not_gt h1⟩
+
+theorem effMix_at (n : Nat) (feed eq : Vec) (e : Rat) (i : Nat) (hi : i < n) :
+    (effMix n feed eq e).at i = if e < 1 then eq.at i * e + (1 - e) / 2 * feed.at i else eq.at i := by
+  unfold effMix
+  split <;> simp [at_tab hi]
+
+/-- the top outlet is the `l` row exactly when no top chemical was named and `rho_l < rho_L` (or `L` is empty) -/
+theorem lle_top_choice (rl rL : Rat) : lleTopIsSmallL false (some rl) (some rL) = decide (rl < rL) := by
+  simp [lleTopIsSmallL]
+
+theorem vle_balance (n : Nat) (feed rowg rowl : Vec) (hrows : ∀ i, rowg.at i + rowl.at i = feed.at i) (i : Nat) (hi : i < n) :
+    (vleWrap n rowg rowl).1.at i + (vleWrap n rowg rowl).2.at i = feed.at i := by
+  simp only [vleWrap, at_tab hi]; exact hrows i
+
+theorem vle_nonneg (n : Nat) (rowg rowl : Vec) (hg : ∀ i, 0 ≤ rowg.at i) (hl : ∀ i, 0 ≤ rowl.at i) (i : Nat) :
+    0 ≤ (vleWrap n rowg rowl).1.at i ∧ 0 ≤ (vleWrap n rowg rowl).2.at i := by
+  simp only [vleWrap, at_tab_eq]
+  constructor <;> split <;> first | exact hg i | exact hl i | exact le_refl _
+
+/-- loading the feed into the holder does not depend on what the holder held -/
+theorem holderLoad_ignores_holder (n : Nat) (h h' : Vec × Vec) (feed : Vec) :
+    holderLoad n h feed = holderLoad n h' feed := rfl
+
+/-- the loaded rows together are exactly the feed -/
+theorem holderLoad_total (n : Nat) (h : Vec × Vec) (feed : Vec) (i : Nat) (hi : i < n) :
+    (holderLoad n h feed).1.at i + (holderLoad n h feed).2.at i = feed.at i := by
+  simp [holderLoad, at_tab hi]
+
+/-- **lle_ignores_holder** — a whole `lle` call, for every equilibrium routine `eqm`, gives the same outlets
+whatever the `multi_stream` holder held before the call -/
+theorem lle_ignores_holder (n : Nat) (h h' : Vec × Vec) (feed : Vec) (eqm : Vec × Vec → Vec × Vec) (tc : Bool)
+    (rho_l rho_L : Option Rat) (e : Rat) :
+    lleFull n h feed eqm tc rho_l rho_L e = lleFull n h' feed eqm tc rho_l rho_L e := rfl
+
+theorem vle_ignores_holder (n : Nat) (h h' : Vec × Vec) (feed : Vec) (eqm : Vec × Vec → Vec × Vec) :
+    vleFull n h feed eqm = vleFull n h' feed eqm := rfl
+
+theorem solveChecked_sound (A : List (List Rat)) (b x : List Rat) (h : solveChecked A b = some x) :
+    matVec A x = b ∧ x.length = b.length := by
+  unfold solveChecked at h
+  split at h
+  · split at h
+    · rename_i hc
+      simp only [Option.some.injEq] at h
+      subst h
+      exact hc
+    · simp at h
+  · simp at h
+
+/-- scaling keeps the composition of each variable inlet: every flow of inlet `j` is multiplied by the same factor -/
+theorem scaleInlets_at (n : Nat) (x : List Rat) (vin : List Vec) (j : Nat) (hjx : j < x.length) (hjv : j < vin.length)
+    (i : Nat) (hi : i < n) :
+    ((scaleInlets n x vin)[j]'(by simp [scaleInlets, hjx, hjv])).at i = vin[j].at i * x[j] := by
+  simp [scaleInlets, at_tab hi]
+
+theorem balIn_A_length (m : BalIn) : m.A.length = m.b.length := by simp [BalIn.A, BalIn.b]
+
+theorem sumL_replicate_zero (k : Nat) : sumL (List.replicate k (0 : Rat)) = 0 := by
+  induction k with
+  | zero => simp
+  | succ k ih => simp [List.replicate_succ, ih]
+
+theorem sumL_map_mul_right {α} (l : List α) (g : α → Rat) (f : Rat) :
+    sumL (l.map (fun a => g a * f)) = sumL (l.map g) * f := by
+  induction l with
+  | nil => simp
+  | cons a t ih => simp [ih]; ring
+
+theorem sum_dot_columns (n : Nat) (vin : List Vec) (x : List Rat) :
+    sumL ((List.range n).map (fun i => dot (vin.map (·.at i)) x)) = dot (vin.map (rowSum n)) x := by
+  induction vin generalizing x with
+  | nil => simp [dot_nil_left, sumL_replicate_zero]
+  | cons s t ih =>
+    cases x with
+    | nil => simp [dot_nil_right, sumL_replicate_zero]
+    | cons f fs =>
+      simp only [List.map_cons, dot_cons]
+      rw [sumL_map_add, ih fs, sumL_map_mul_right]
+      rfl
+
+/-- `S x` is the total flow of the variable inlets scaled by `x` -/
+theorem rowSum_scaleInlets (m : CompIn) (x : List Rat) :
+    m.S x = sumL ((List.range m.n).map (fun i => sumL ((scaleInlets m.n x m.vin).map (·.at i)))) := by
+  unfold CompIn.S CompIn.s
+  rw [← sum_dot_columns]
+  congr 1
+  apply List.map_congr_left
+  intro i hi
+  exact (sumL_scaleInlets m.n i (List.mem_range.mp hi) x m.vin).symm
+
+theorem shiftNeg_false (y : List Rat) (h : (shiftNeg y).2 = false) : (shiftNeg y).1 = y := by
+  unfold shiftNeg at *
+  by_cases hn : (y.filter (· < 0)).isEmpty = true
+  · simp [hn]
+  · simp [hn] at h
+
+/-- when the loop stops, the returned factors are one solve step away from the last guess and within the tolerance -/
+theorem loop_ok (m : CompIn) : ∀ (fuel : Nat) (xg : List Rat) (it : Nat) (x xp : List Rat) (sh : Bool) (it' : Nat),
+    m.loop fuel xg it = .ok (x, xp, sh, it') → m.step xp = some (x, sh) ∧ relChange2 x xp ≤ m.tol
+  | 0, _, _, _, _, _, _, h => by simp [CompIn.loop] at h
+  | fuel + 1, xg, it, x, xp, sh, it', h => by
+    unfold CompIn.loop at h
+    cases hs : m.step xg with
+    | none => simp [hs] at h
+    | some r =>
+      obtain ⟨xn, s⟩ := r
+      simp only [hs] at h
+      by_cases hc : relChange2 xn xg > m.tol
+      · simp only [hc, if_true] at h
+        exact loop_ok m fuel xn (it + 1) x xp sh it' h
+      · simp only [hc, if_false, Except.ok.injEq, Prod.mk.injEq] at h
+        obtain ⟨rfl, rfl, rfl, _⟩ := h
+        exact ⟨hs, le_of_not_gt hc⟩
+
+/-- one un-shifted step: for a chosen chemical, (scaled variable inlets + constant inlets) minus `f_c` times the
+total inlet flow `S x_new + G` equals `f_c · (S x_prev − S x_new)`.  (`S x` is the total flow of the variable inlets
+scaled by `x`, `rowSum_scaleInlets`.) -/
+theorem composition_step_residual (m : CompIn) (xp xn : List Rat) (h : solveChecked m.A (m.rhs xp) = some xn)
+    (c : Nat) (hc : c ∈ m.idx) (hcn : c < m.n) :
+    sumL ((scaleInlets m.n xn m.vin).map (·.at c)) + m.g c - m.f c * (m.S xn + m.G) = m.f c * (m.S xp - m.S xn) := by
+  obtain ⟨hAx, _⟩ := solveChecked_sound _ _ _ h
+  unfold matVec CompIn.A CompIn.rhs at hAx
+  rw [List.map_map] at hAx
+  have := List.map_inj_left.mp hAx c hc
+  simp only [Function.comp] at this
+  rw [sumL_scaleInlets m.n c hcn, this]
+  ring
+
+/-- termwise identities behind the Rachford–Rice objective: with `d_i = 1 + φ (K_i − 1)`,
+`Σ −z_i (K_i − 1)/d_i = Σ z_i/d_i − Σ z_i K_i/d_i` and `φ Σ z_i K_i/d_i + (1 − φ) Σ z_i/d_i = Σ z_i` -/
+theorem rr_terms (phi : Rat) : ∀ (zs ks : List Rat), zs.length = ks.length → (∀ k ∈ ks, 1 + phi * (k - 1) ≠ 0) →
+    sumL (List.zipWith (fun z k => -(z * (k - 1)) / (1 + phi * (k - 1))) zs ks) =
+        sumL (List.zipWith (fun z k => z / (1 + phi * (k - 1))) zs ks) -
+        sumL (List.zipWith (fun z k => z * k / (1 + phi * (k - 1))) zs ks) ∧
+    phi * sumL (List.zipWith (fun z k => z * k / (1 + phi * (k - 1))) zs ks) +
+        (1 - phi) * sumL (List.zipWith (fun z k => z / (1 + phi * (k - 1))) zs ks) = sumL zs
+  | [], [], _, _ => by simp
+  | [], _ :: _, h, _ => by simp at h
+  | _ :: _, [], h, _ => by simp at h
+  | z :: zt, k :: kt, h, hd => by
+    obtain ⟨ih1, ih2⟩ := rr_terms phi zt kt (by simpa using h) (fun k' hk' => hd k' (by simp [hk']))
+    have hd0 : 1 + phi * (k - 1) ≠ 0 := hd k (by simp)
+    simp only [List.zipWith_cons_cons, sumL_cons]
+    have e1 : -(z * (k - 1)) / (1 + phi * (k - 1)) = z / (1 + phi * (k - 1)) - z * k / (1 + phi * (k - 1)) := by
+      field_simp; ring
+    have e2 : phi * (z * k / (1 + phi * (k - 1))) + (1 - phi) * (z / (1 + phi * (k - 1))) = z := by
+      field_simp; ring
+    constructor
+    · rw [e1, ih1]; ring
+    · linarith
+
+theorem bottoms_sum (phi F : Rat) (hF : F ≠ 0) (f feed : Nat → Rat) : ∀ (ids : List Nat) (K : List Rat),
+    ids.length = K.length → (∀ k ∈ K, phi * k + (1 - phi) ≠ 0) →
+    (∀ ik ∈ ids.zip K, f ik.1 = feed ik.1 * (1 - phi) / (phi * ik.2 + (1 - phi))) →
+    sumL (ids.map f) = (1 - phi) * F *
+      sumL (List.zipWith (fun z k => z / (1 + phi * (k - 1))) (ids.map (fun i => feed i / F)) K)
+  | [], [], _, _, _ => by simp
+  | [], _ :: _, h, _, _ => by simp at h
+  | _ :: _, [], h, _, _ => by simp at h
+  | i :: it, k :: kt, h, hd, hf => by
+    have ih := bottoms_sum phi F hF f feed it kt (by simpa using h) (fun k' hk' => hd k' (by simp [hk']))
+      (fun ik hik => hf ik (by simp [hik]))
+    have h0 := hf (i, k) (by simp)
+    have hd0 := hd k (by simp)
+    have hd1 : 1 + phi * (k - 1) ≠ 0 := by
+      have : 1 + phi * (k - 1) = phi * k + (1 - phi) := by ring
+      rw [this]; exact hd0
+    simp only [List.map_cons, List.zipWith_cons_cons, sumL_cons]
+    rw [ih, h0]
+    have : phi * k + (1 - phi) = 1 + phi * (k - 1) := by ring
+    rw [this]
+    field_simp
+
+theorem reported_le_any (l : List (Rat × Bool × Bool)) (h : reported l = true) :
+    l.any (fun e => e.2.1 || e.2.2) = true := by
+  unfold reported at h
+  rw [List.any_eq_true]
+  rcases Bool.or_eq_true_iff.mp h with h' | h'
+  · obtain ⟨e, he, hf⟩ := List.any_eq_true.mp h'
+    exact ⟨e, List.mem_of_mem_drop he, by simp [hf]⟩
+  · obtain ⟨e, he, hf⟩ := List.any_eq_true.mp h'
+    exact ⟨e, List.mem_of_mem_drop he, by simp [hf]⟩
+
 end ThermoVerif.Separations
